@@ -435,10 +435,13 @@ class ManifestRecursiveLoader:
         """
         Return a dict mapping paths of Manifests reachable from
         the top-level Manifest (via MANIFEST entries of loaded
-        Manifests) to the number of references leading to them.
+        Manifests) to the number of references leading to them
+        (the longest chain, if a Manifest is referenced more than once).
         """
         levels = {self.top_level_manifest_filename: 0}
         queue = [self.top_level_manifest_filename]
+        # (a chain can not be longer than that, unless it is a cycle)
+        max_level = len(self.loaded_manifests)
         while queue:
             mpath = queue.pop()
             m = self.loaded_manifests.get(mpath)
@@ -449,8 +452,9 @@ class ManifestRecursiveLoader:
                 if e.tag != 'MANIFEST':
                     continue
                 cpath = os.path.join(mdir, e.path)
-                if cpath not in levels:
-                    levels[cpath] = levels[mpath] + 1
+                level = levels[mpath] + 1
+                if levels.get(cpath, -1) < level <= max_level:
+                    levels[cpath] = level
                     queue.append(cpath)
         return levels
 
